@@ -921,11 +921,35 @@ def do_module_functions(repo, outdir):
     return rejects
 
 
+def do_contours(repo, outdir):
+    """module-level algebra of contours.py: calculate_alpha"""
+    rejects = []
+    mod = ast.parse(open(os.path.join(repo, "virocon", "contours.py")).read())
+    u = Unit()
+    text = [HEADER % "virocon/contours.py"]
+    found = False
+    for st in mod.body:
+        if isinstance(st, ast.FunctionDef) and st.name == "calculate_alpha":
+            found = True
+            try:
+                tr = FnTr(u, None, st, "contours:calculate_alpha")
+                ps, term = tr.translate()
+                args = "".join(" (%s : T)" % ident(n) for n, _ in ps)
+                text.append("Definition ct_calculate_alpha%s :=\n  %s." % (args, term))
+            except Reject as r:
+                rejects.append(str(r))
+    if not found:
+        rejects.append("contours:calculate_alpha: not found")
+    text.append("End Gen.")
+    write_if_changed(os.path.join(outdir, "Contours.v"), "\n".join(text) + "\n")
+    return rejects
+
+
 def main():
     repo, outdir = sys.argv[1], sys.argv[2]
     os.makedirs(outdir, exist_ok=True)
     rejects = []
-    for f in (do_distributions, do_module_functions):
+    for f in (do_distributions, do_module_functions, do_contours):
         try:
             rejects += f(repo, outdir)
         except SyntaxError as e:
